@@ -45,6 +45,10 @@ func bigBalances(c *Case, r *rand.Rand) map[string]map[string]*big.Int {
 			x := big.NewInt(v)
 			if r.Intn(6) == 0 { // amounts beyond 2^64
 				x.Mul(x, new(big.Int).Lsh(big.NewInt(1), 70))
+				if r.Intn(2) == 0 && x.Sign() != 0 {
+					// ... and not a round binary number: every one of its digits matters (a send-all moves exactly this)
+					x.Add(x, big.NewInt(int64(1+r.Intn(999))))
+				}
 			}
 			out[a][as] = x
 		}
@@ -163,6 +167,14 @@ func cmdCliCheck(args []string) {
 		}
 		if r.Intn(6) == 0 { // metadata with characters that matter to formatting / escaping
 			c.Text = c.Text + "\n" + pick(r, []string{`set_tx_meta("note", "fee 15% of total %d %s")`, `set_account_meta(@a, "discount", "100%")`, `set_tx_meta("q", "say \\\"hi\\\" C:\\temp")`})
+		}
+		if r.Intn(10) == 0 {
+			// warnings only (portions that already add up to one next to `remaining`; an unused variable): not errors
+			c.Text = c.Text + "\nsend [USD 10] (\n source = @world\n destination = { 1/2 to @wa 1/2 to @wb remaining to @wc }\n)"
+		}
+		if r.Intn(10) == 0 {
+			// everything an account holds, whatever its size
+			c.Text = c.Text + "\nsend [USD *] (\n source = @a\n destination = @sweep\n)"
 		}
 		if r.Intn(15) == 0 {
 			// the smallest scripts: nothing at all, a newline, a comment, an empty vars block
